@@ -25,6 +25,8 @@ for m in sorted(glob.glob(os.path.join(wt, "_out", "m*"))):
         out = rr.stdout
         caught = "VIOLATION property=" in out
         results[p] = {"caught": caught, "output": [l for l in out.splitlines() if l.startswith(("VIOLATION", "OK", "INCONCLUSIVE", "==", "BUILD"))][:6]}
+        if caught:
+            break  # the extra properties are only consulted until one check catches the change
     meta["checks_run"] = results
     meta["caught_by"] = [p for p, v in results.items() if v["caught"]]
     json.dump(meta, open(os.path.join(dst, "meta.json"), "w"), indent=1)
